@@ -3,9 +3,11 @@
   (src/hb/aat_layout_morx_table.rs, aat_map.rs, and the buffer primitives of buffer.rs it uses).
 
   The model mirrors the Rust control flow loop by loop, including the places where Rust would panic
-  (these become `Except.error`) and including the known defects of the buffer (D5: forward copy over an
-  overlapping range in `move_to`; D6: `ensure` = `Vec::resize` truncates; D4: dead "extend start" loop;
-  D17: the non-contextual subtable tests the range of a never-advanced `idx`).
+  (these become `Except.error`). Three loops/guards of buffer.rs exist in two variants each; which one the
+  current source has is regenerated into Gen/Buf.lean (`ensureGrowOnly`, `moveToRewindReversed`,
+  `extendStartGuard`), so the model follows the crate across the repairs of D6 / D5 / D4. D19 (shift_forward
+  reports a refused allocation) and the u32 ligature accumulator are mirrored as repaired. D17 (the
+  non-contextual subtable tests the range of a never-advanced `idx`) is reproduced.
 
   What is *not* modelled (and therefore not compared by the correspondence): glyph masks / glyph flags
   (`unsafe_to_break*` only contribute their asserts and index checks), glyph props from GDEF
@@ -15,10 +17,12 @@
   Buffer abstraction: `Buf` is Rust's representation (info vector, the `pos` vector viewed as separate
   output, idx/len/out_len, have_output/have_separate_output, Vec lengths). The *list* view of it is
   `Buf.view` (Lemmas/Morx.lean); Spec/Aat.lean works on plain lists. Where the list view is only right
-  if `move_to`/`ensure` behave like list operations is marked with `-- LIST-ASSUMPTION` below: these are
-  exactly the places D5/D6 break in the real code (and in this model, which reproduces them).
+  if `move_to`/`ensure` behave like list operations is marked with `LIST-ASSUMPTION` below: with the repaired
+  variants these are theorems about the shared buffer model (Lemmas/BufZipper.lean: `ensure_spec`,
+  `shiftForward_spec`, `moveTo_spec`, …); with the old variants they are false (D5/D6).
 -/
 import RbModel.Gen.Morx
+import RbModel.Gen.Buf
 
 namespace RbModel.Morx
 open RbModel.Gen.Morx
@@ -101,11 +105,16 @@ def outSet (b : Buf) (i : Nat) (g : G) : M Buf :=
   if b.sepOut then do let o ← wr b.out i g; pure { b with out := o }
   else do let o ← wr b.info i g; pure { b with info := o }
 
-/-- src: buffer.rs::ensure — LIST-ASSUMPTION (D6): `resize` shrinks both vectors to `size` when
-    `len ≤ size < Vec::len()`, which can cut the separate out-buffer below `out_len`. -/
+/-- src: buffer.rs::ensure. `Gen.Buf.ensureGrowOnly` = which variant the source has (recovered from the
+    compiled crate): `true` = the vectors only grow (the repaired code; then the list view of the buffer is
+    kept, cf. Lemmas/BufZipper.lean `ensure_spec`), `false` = `Vec::resize`, which also shrinks and could cut
+    the separate out-buffer below `out_len` (defect D6). -/
 def ensure (b : Buf) (size : Nat) : Buf × Bool :=
   if size < b.len then (b, true)
   else if size > b.maxLen then ({ b with successful := false }, false)
+  else if RbModel.Gen.Buf.ensureGrowOnly then
+    ({ b with info := if size > b.info.size then resize b.info size else b.info,
+              out := if size > b.out.size then resize b.out size else b.out }, true)
   else ({ b with info := resize b.info size, out := resize b.out size }, true)
 
 /-- src: buffer.rs::make_room_for -/
@@ -119,22 +128,31 @@ def makeRoomFor (b : Buf) (numIn numOut : Nat) : M (Buf × Bool) := do
     return (b, true)
   return (b, true)
 
-/-- src: buffer.rs::shift_forward — LIST-ASSUMPTION (D6, D19): `ensure(len + count)` truncates the
-    out-buffer; a refused `ensure` returns silently and the caller asserts. -/
-def shiftForward (b : Buf) (count : Nat) : M Buf := do
+/-- src: buffer.rs::shift_forward — returns `false` when `ensure` refuses (repaired D19; before, the
+    caller ran into `assert!(self.idx >= count)`). List view: BufZipper `shiftForward_spec`. -/
+def shiftForward (b : Buf) (count : Nat) : M (Buf × Bool) := do
   if !b.haveOutput then throw .assert
   let (b, ok) := ensure b (b.len + count)
-  if !ok then return b
+  if !ok then return (b, false)
   if b.idx > b.len then throw .wrap
   let info ← forDown (b.len - b.idx)
     (fun i a => do let g ← rd a (b.idx + i); wr a (b.idx + count + i) g) b.info
   let info ← if b.idx + count > b.len then
       forUp (b.idx + count - b.len) (fun j a => wr a (b.len + j) G.dflt) info
     else pure info
-  return { b with info := info, len := b.len + count, idx := b.idx + count }
+  return ({ b with info := info, len := b.len + count, idx := b.idx + count }, true)
 
-/-- src: buffer.rs::move_to — LIST-ASSUMPTION (D5): the rewind loop copies forward, which duplicates
-    glyphs when source and destination overlap in the same vector (no separate output). -/
+/-- the rewind loop of move_to, `info[idx + j] = out_info()[out_len + j]`, in the order the source runs it:
+    `Gen.Buf.moveToRewindReversed` = j descending (repaired, memmove-safe); ascending duplicates glyphs when
+    source and destination overlap in the same vector (defect D5). -/
+def rewindCopy (b : Buf) (count : Nat) : M Buf :=
+  let step := fun (j : Nat) (b : Buf) => do
+    let g ← outGet b (b.outLen + j); let a ← wr b.info (b.idx + j) g
+    pure { b with info := a }
+  if RbModel.Gen.Buf.moveToRewindReversed then forDown count step b else forUp count step b
+
+/-- src: buffer.rs::move_to. List view (logical sequence unchanged, `out_len = i`): BufZipper `moveTo_spec`,
+    which needs both repaired variants. -/
 def moveTo (b : Buf) (i : Nat) : M (Buf × Bool) := do
   if !b.haveOutput then
     if i > b.len then throw .assert
@@ -150,12 +168,11 @@ def moveTo (b : Buf) (i : Nat) : M (Buf × Bool) := do
     return ({ b with idx := b.idx + count, outLen := b.outLen + count }, true)
   else if b.outLen > i then
     let count := b.outLen - i
-    let b ← if b.idx < count then shiftForward b (count - b.idx) else pure b
+    let (b, ok) ← if b.idx < count then shiftForward b (count - b.idx) else pure (b, true)
+    if !ok then return (b, false)
     if b.idx < count then throw .assert
     let b := { b with idx := b.idx - count, outLen := b.outLen - count }
-    let b ← forUp count
-      (fun j b => do let g ← outGet b (b.outLen + j); let a ← wr b.info (b.idx + j) g
-                     pure { b with info := a }) b
+    let b ← rewindCopy b count
     return (b, true)
   else return (b, true)
 
@@ -253,13 +270,13 @@ def extendEnd (a : Array G) (len : Nat) : (fuel : Nat) → (e : Nat) → M Nat
     else pure e
 
 /-- `while guard && info[start-1].cluster == info[start].cluster { start -= 1 }` with the code's own
-    guard `end < start` (D4: HarfBuzz has `idx < start`). -/
-def extendStart (a : Array G) (e : Nat) : (fuel : Nat) → (s : Nat) → M Nat
+    guard: `Gen.Buf.extendStartGuard` = 1: `self.idx < start` (HarfBuzz, repaired D4), 0: `end < start`. -/
+def extendStart (a : Array G) (e idx : Nat) : (fuel : Nat) → (s : Nat) → M Nat
   | 0, s => pure s
   | fuel + 1, s => do
-    if e < s then
+    if (if RbModel.Gen.Buf.extendStartGuard == 1 then idx < s else e < s) then
       let x ← rd a (s - 1); let y ← rd a s
-      if x.cl == y.cl then extendStart a e fuel (s - 1) else pure s
+      if x.cl == y.cl then extendStart a e idx fuel (s - 1) else pure s
     else pure s
 
 /-- `while i != 0 && out_info()[i-1].cluster == c0 { set_cluster(out_info[i-1], cluster); i -= 1 }` -/
@@ -282,7 +299,7 @@ def mergeClustersImpl (b : Buf) (start end_ : Nat) : M Buf := do
   let gl ← rd b.info (end_ - 1)
   let end_ ← if cluster != gl.cl then extendEnd b.info b.len (b.len - end_) end_ else pure end_
   let gs ← rd b.info start
-  let start ← if cluster != gs.cl then extendStart b.info end_ start start else pure start
+  let start ← if cluster != gs.cl then extendStart b.info end_ b.idx start start else pure start
   let gs ← rd b.info start
   let b ← if b.idx == start && gs.cl != cluster then mergeBackOut gs.cl cluster b.outLen b else pure b
   let info ← forUp (end_ - start) (fun k a => setCl a (start + k) cluster) b.info
@@ -739,7 +756,7 @@ def ligLoop (t : LigTable) : (cursor : Nat) → (actionIdx ligIdx : Nat) → CS 
       match t.components compIdx with
       | none => pure (cs, b)
       | some comp =>
-        let ligIdx := (ligIdx + comp) % 65536
+        let ligIdx := (ligIdx + comp) % 2 ^ 32      -- `ligature_idx: u32`
         let r : Option (CS × Buf) ← (if action &&& (LIG_ACTION_STORE ||| LIG_ACTION_LAST) != 0 then do
             match t.ligatures ligIdx with
             | none => pure none
